@@ -68,8 +68,9 @@ func allInputs(seed uint64, ne int) []*Input {
 	}
 	wg.Wait()
 	var out []*Input
-	for _, p := range per {
+	for i, p := range per {
 		out = append(out, p...)
+		out = append(out, shapeInputs(dmodel.Dialects[i])...)
 	}
 	return out
 }
